@@ -749,14 +749,14 @@ func dedup(xs []string) []string {
 	return r
 }
 
-const ruleCommon = "; each program is compiled by the real bondgo CLI once per plan (3 plans: GOMAXPROCS in {1,2,4,8} x VERIF_BONDGO_SCHED), register size 8/16/32/64, every routine ends in an endless writing loop; oracles: (i) every run terminates (10 s; a goroutine dump classifies hangs), (ii) assembly and machine JSON byte-equal across plans, (iii) reference evaluator vs the machine: on the Go simulator when all requested opcodes are faithful there; on the generated Verilog (real Write_verilog, in-house interpreter, r2o writes observed on _auxoK) when the machine also uses the RAM moves r2m/m2r, and for one in eight faithful machines as a guard of that path; channel opcodes: label sem:needs-hdl, not judged; non-trivial = accepted, >=2 value variables, >=1 loop or branch, >=3 output values compared with the reference"
+const ruleCommon = "; each program is compiled by the real bondgo CLI once per plan (3 plans: GOMAXPROCS in {1,2,4,8} x VERIF_BONDGO_SCHED), register size 8/16/32/64, every routine ends in an endless writing loop; oracles: (i) every run terminates (10 s; a goroutine dump classifies hangs), (ii) assembly and machine JSON byte-equal across plans, (iii) reference evaluator vs the machine: on the Go simulator when all requested opcodes are faithful there; on the generated Verilog (real Write_verilog, in-house interpreter, r2o writes observed on _auxoK) when the machine also uses the RAM moves r2m/m2r, and for one in eight faithful machines as a guard of that path; channel opcodes: label sem:needs-hdl, not judged; with -mpm every processor port must be bonded to the bondmachine port of the global id its variable was made with (external ports are in ascending id order); a permanent deadlock of the compiler is recognised from the dump (every goroutine parked) without waiting for the deadline; non-trivial = accepted, >=2 value variables, >=1 loop or branch, >=3 output values compared with the reference"
 
 var Props = []*pbt.Entry{
 	pbt.Def("compile_faithful",
-		"Go-subset programs biased to the simulator-faithful opcode set: register variables (reg_ names), = := ++ -- + *, if/else on constants and ==, for with/without clauses, break/continue, value functions (inlined), IOWrite/IORead, a small share of switch, unsupported operators and -mpm with independent `go f()` workers"+ruleCommon,
+		"Go-subset programs biased to the simulator-faithful opcode set: register variables (reg_ names), = := ++ -- + *, if/else on constants and ==, for with/without clauses, break/continue, value functions (inlined), IOWrite/IORead, a small share of switch (default-only switches compile without a comparison), unsupported operators and -mpm with independent `go f()` workers; integer literals in every spelling (0x, 0b, leading zero; legacy octal in ~6% of the programs), break inside switch clauses, value functions called as statements (~4%: a function that writes an output), 0-8 inputs and 1-5 outputs (9-10 inputs, the recorded termination finding, in ~2%), Make calls out of declaration order (~8%)"+ruleCommon,
 		genCase(GenOpts{Faithful: true}), prop),
 	pbt.Def("compile_full",
-		"Go-subset programs over the whole accepted grammar: additionally RAM variables (r2m/m2r), == everywhere, switch/fallthrough, -mpm with `go f()` workers, channel producers and by-value goroutine arguments"+ruleCommon,
+		"Go-subset programs over the whole accepted grammar: additionally RAM variables (r2m/m2r), == everywhere, switch/fallthrough, -mpm with `go f()` workers, channel producers and by-value goroutine arguments (one or two), plus the literal/break/call-statement/IO-count/Make-order shapes of compile_faithful"+ruleCommon,
 		genCase(GenOpts{Faithful: false}), prop),
 }
 
